@@ -9,3 +9,4 @@ open PgmVerif
 #print axioms PgmVerif.C10_bdeu_covered_edge
 #print axioms PgmVerif.C10_loglik_covered_edge
 #print axioms PgmVerif.C10_nparams_covered_edge
+#print axioms PgmVerif.C10_defaults_tie
